@@ -494,6 +494,19 @@ def r07f(model, ctx):
                     if isinstance(a, ast.Subscript) and unparse(a.value) == tbl and isinstance(b, ast.Tuple) and len(b.elts) == 2 and \
                             unparse(b.elts[0]) == wname and unparse(b.elts[1]) in incs:
                         ok = True
+                    elif isinstance(a, ast.Subscript) and unparse(a.value) == tbl and isinstance(b, ast.Tuple) and len(b.elts) == 2 and \
+                            unparse(b.elts[0]) == wname:
+                        # closed form of the running bit: start bit + (position counter - its initial value)
+                        from ..engine.bitalg import Canon as _Canon
+                        cn_ = _Canon()
+                        for x_ in incs:
+                            init_ = [st for st in ast.walk(f) if isinstance(st, ast.Assign) and len(st.targets) == 1 and
+                                     unparse(st.targets[0]) == x_ and st.lineno < w.lineno]
+                            if init_:
+                                x0 = unparse(sorted(init_, key=lambda st: st.lineno)[-1].value)
+                                want_ = ast.parse(f"{sname} + {x_} - ({x0})", mode="eval").body
+                                if cn_.arith(b.elts[1]) == cn_.arith(want_):
+                                    ok = True
         if not ok:
             # two separate comparisons of the components
             parts = {unparse(c) for c in conj}
